@@ -157,8 +157,13 @@ def gen(stratum, rng, tier):
     c = _base(rng, stratum)
     if stratum in ("anneal", "tabu", "lns", "alns", "evolve"):
         kind = "perm" if rng.random() < 0.4 else "vec"
+        if stratum in ("anneal", "tabu") and rng.random() < 0.12:
+            kind = "scalar"  # solutions are plain ints walking through 0: a solution is a value, not a truth value
         c["kind"] = kind
-        if kind == "vec":
+        if kind == "scalar":
+            c["obj"] = dict(_vec_obj(rng, 1, fams=["plateau", "steps", "sphere", "linear", "disc", "halfgrid"]), scalar=True)
+            c["x0"] = rng.choice([0, 1, -1, 2, -2, 3])
+        elif kind == "vec":
             d = rng.randint(1, 3)
             c["obj"] = _vec_obj(rng, d)
             c["x0"] = [_dy(rng, -3, 3) for _ in range(d)]
@@ -364,6 +369,12 @@ def _launcher(case):
             cool_f = lambda: cool  # noqa: E731
 
         def launch(f, mn, holder):
+            if kind == "scalar":
+                from random import Random as _R
+
+                rr = _R(cbs)
+                return A.anneal(case["x0"], f, lambda x: x + rr.choice((-1, 1)), minimize=mn, seed=seed, cooling=cool_f(), **opts,
+                                **_progress_kw(case, holder))
             nb = H.vec_neighbor(cbs, case["step"], case["grid"]) if kind == "vec" else H.perm_neighbor(cbs)
             return A.anneal(list(case["x0"]), f, nb, minimize=mn, seed=seed, cooling=cool_f(), **opts, **_progress_kw(case, holder))
 
@@ -372,6 +383,9 @@ def _launcher(case):
         T = _m["tabu"]
 
         def launch(f, mn, holder):
+            if kind == "scalar":
+                return T.tabu_search(case["x0"], f, lambda x: [(+1, x + 1), (-1, x - 1)], minimize=mn, seed=seed, **opts,
+                                     **_progress_kw(case, holder))
             nbs = (H.vec_tabu_neighbors(case["step"], case["empty_after"]) if kind == "vec"
                    else H.perm_tabu_neighbors(case["as_iter"]))
             return T.tabu_search(list(case["x0"]), f, nbs, minimize=mn, seed=seed, **opts, **_progress_kw(case, holder))
